@@ -110,6 +110,10 @@ def _value(rng, sigil, long_ok=False):
     alphabet = 'abcdefghijklmnopqrstuvwxyzABCDEFGHIJKLMNOPQRSTUVWXYZ0123456789 ,.:;-+*/()<>=!?#$%&'
     n = rng.choice([1, 2, 5, 9, 17, 30])
     lit = ''.join(rng.choice(alphabet) for _ in range(n))
+    if rng.random() < 0.12:
+        # an empty string computed at run time (not a "" literal, not an unset variable)
+        return b'', rng.choice(['MID$("%s",1,0)' % lit, 'LEFT$("%s"+"",0)' % lit, 'SPACE$(0)', '""+""', 'STRING$(0,65)',
+                                'RIGHT$("%s",0)' % lit, 'MID$("%s"+"x",%d)' % (lit, n + 2)])
     style = rng.random()
     if long_ok and style < 0.45:
         k = rng.choice([60, 120, 200, 255 - n, 250 - n, rng.randint(30, 255 - n)])
@@ -966,6 +970,18 @@ def directed_cases():
     out.append(_hand('chain', S + ['30 CHAIN "P2",5000', '40 COMMON B$,C#,D()'] + T,
                      p2=P2, p2name='P2', expected_out=b'#C\r\nRETURN without GOSUB in 5010' + E, closer='return',
                      keep_s=['B$', 'C#'], keep_a=['D!'], **ch))
+    # empty strings computed at run time between non-empty ones, scalars and array elements
+    em = dict(scalars={'A$': b'xxxxx', 'B$': b'', 'C$': b'yyy', 'D$': b''},
+              arrays={'E$': ([3], {(0,): (b'pq', ''), (1,): (b'', ''), (2,): (b'r', ''), (3,): (b'', '')}, True)})
+    EM = ['10 A$=STRING$(5,"x"):B$=MID$(A$,1,0):C$=STRING$(3,"y"):D$=LEFT$(C$,0)',
+          '15 DIM E$(3):E$(0)="p"+"q":E$(1)=MID$(E$(0),1,0):E$(2)="r"+"":E$(3)=SPACE$(0)']
+    for com in ('COMMON A$,B$,C$,D$,E$()', 'COMMON D$,C$,E$(),B$,A$'):
+        out.append(_hand('chain', EM + ['20 ' + com, '30 CHAIN "P2"'], p2=P2, p2name='P2',
+                         expected_out=b'#C\r\nRETURN without GOSUB in 5010' + E, closer='return',
+                         keep_s=['A$', 'B$', 'C$', 'D$'], keep_a=['E$'], **em))
+    out.append(_hand('chain_all', EM + ['30 CHAIN "P2",,ALL'], p2=P2, p2name='P2',
+                     expected_out=b'#C\r\nRETURN without GOSUB in 5010' + E, closer='return',
+                     keep_s=['A$', 'B$', 'C$', 'D$'], keep_a=['E$'], **em))
     # a scalar and an array of the same name, only one of them COMMON
     tw = dict(scalars={'A!': 5.0, 'B$': b'sc'}, arrays={'A!': ([3], {(1,): (7.0, '')}, True), 'B$': ([2], {(2,): (b'arr', '')}, True)})
     TW = ['10 A=5:DIM A(3):A(1)=7:B$="s"+"c":DIM B$(2):B$(2)="ar"+"r"']
